@@ -71,7 +71,7 @@ func kib() []byte {
 
 func maxN(tier string) int {
 	if tier == "thorough" {
-		return 9
+		return 10
 	}
 	return 7
 }
